@@ -192,6 +192,11 @@ class Cluster(object):
             #     if TSself != (TSother[1] - R0, TSother[0] - R0):
             if not self.istransition(*other.transitionstate()):
                 return False
+            # istransition only compares the pair relative to its first site; the pair also has
+            # to sit at the same place relative to the rest of the cluster (center-of-mass frame)
+            if set((cs.ci, self.__shift_pos__(cs)) for cs in self.sites[:2]) != \
+                    set((cs.ci, other.__shift_pos__(cs)) for cs in other.sites[:2]):
+                return False
         # with the new indexing, I don't believe this check is required:
         # elif self.__vacancy__:
         #     if self.vacancy() != other.vacancy():
